@@ -178,6 +178,8 @@ class _Table(dict):
         self.probes.append(h)
         if dict.__contains__(self, h):
             return dict.__getitem__(self, h)
+        if h in getattr(self, "miss_keys", ()):
+            return default
         if self.c.choose([True, True], f"table-holds-a-node-under-probe{len(self.probes)}") == 0:
             return default
         n = object.__new__(self.ns["Base"])
@@ -213,8 +215,15 @@ def ob_base_new_table(tier="quick"):
         ka = c.choose([True] * (1 << len(uni)), "annotations-given")
         given = tuple(a for i, a in enumerate(uni) if ka >> i & 1)
         skip = c.choose([True, True], "skip_child_annotations") == 1
+        # hash=: what unpickling passes - the hash computed by the process that pickled the node.  It is the node's hash only if that
+        # process hashed the annotations the same way (same PYTHONHASHSEED); a foreign hash must not become the key of a node built here
+        hk = c.choose([True, True], "hash-argument")            # none / a foreign hash that is in nobody's table
+        kw = {}
+        if hk == 1:
+            kw["hash"] = 0x0BADC0DE
+            table.miss_keys = {0x0BADC0DE}
         try:
-            r = Base(op, args, annotations=given, skip_child_annotations=skip, length=8)
+            r = Base(op, args, annotations=given, skip_child_annotations=skip, length=8, **kw)
         except (PathEnd, Undecided):
             raise
         except Exception as ex:  # noqa
@@ -251,8 +260,17 @@ def replay_table(failure=None):
     twin = (-x).clear_annotations()
     again = -x
     bad = again is twin or tuple(again.annotations) != tuple((-x).annotations) or not again.annotations
-    return {"reproduced": bool(bad), "text": f"x = BVS.annotate(UninitializedAnnotation()); twin = (-x).clear_annotations(); -x now has annotations {again.annotations!r}"
-            + (" and IS the twin" if again is twin else "")}
+    if bad:
+        return {"reproduced": True, "text": f"x = BVS.annotate(UninitializedAnnotation()); twin = (-x).clear_annotations(); -x now has annotations {again.annotations!r}"
+                + (" and IS the twin" if again is twin else "")}
+    # a node built with a supplied hash that no table knows (what unpickling in a process with another hash seed does)
+    from claripy.ast import BV
+    y = claripy.BVS("kf_tab_y", 8, explicit_name=True)
+    n1 = BV("__sub__", (x, y), length=8, hash=0x0BADC0DE)
+    n2 = BV("__sub__", (x, y), length=8)
+    bad = n1 is not n2 or n1._hash == 0x0BADC0DE
+    return {"reproduced": bool(bad), "text": f"BV('__sub__', (x, y), length=8, hash=<foreign>) has hash {n1._hash:#x}; the same node built without hash= " +
+            ("is ANOTHER object: two structurally identical live expressions" if n1 is not n2 else "is the same object")}
 
 
 def ob_make_like(tier="quick"):
